@@ -446,4 +446,185 @@ theorem records_parent (units : List (UnitHdr × List Entry)) (r : Rec) (hr : r 
     · simp only [Rec.off]; rw [ho]
     · exact ht.symm
 
+/-! ## `ConvertUnit::read_entry`: parent links of the reserved entries -/
+
+/-- `ConvertUnit::read_entry` without the attribute conversion: `(offset, parent)` of the reserved
+entries, in order -/
+def convertLinks (ids : List Off) (u : UnitHdr) : List (Int × Off) → List Entry → List (Off × Option Off)
+  | _, [] => []
+  | stack, e :: es =>
+    let stack1 := stack.dropWhile (fun p => !(decide (p.1 < e.depth)))
+    let stack2 := if ids.contains (u.base + e.off) && e.hasChildren then (e.depth, u.base + e.off) :: stack1 else stack1
+    if ids.contains (u.base + e.off) then (u.base + e.off, stack1.head?.map (·.2)) :: convertLinks ids u stack2 es
+    else convertLinks ids u stack2 es
+
+theorem convertEntries_links (ids : List Off) (u : UnitHdr) : ∀ (es : List Entry) (st : List (Int × Off))
+    (acc res : List (Off × Option Off)),
+    convertEntries ids u st es acc = .ok res → res = acc.reverse ++ convertLinks ids u st es := by
+  intro es
+  induction es with
+  | nil => intro st acc res h; simp only [convertEntries, Except.ok.injEq] at h; simp [convertLinks, h]
+  | cons e es ih =>
+    intro st acc res h
+    rw [convertEntries] at h
+    rw [convertLinks]
+    by_cases hr : ids.contains (u.base + e.off) = true
+    · simp only [hr, if_true, Bool.true_and] at h ⊢
+      cases hf : firstErr (e.attrs.map (convAttr ids u)) with
+      | some err => rw [hf] at h; cases h
+      | none =>
+        rw [hf] at h
+        simp only at h
+        have := ih _ _ _ h
+        simpa using this
+    · have hr' : ids.contains (u.base + e.off) = false := by simpa using hr
+      simp only [hr', Bool.false_and, Bool.false_eq_true, if_false] at h ⊢
+      exact ih _ _ _ h
+
+
+/-- the `FilterUnit` stack has strictly decreasing depths from the top -/
+def StackSorted (st : List Parent) : Prop := st.Pairwise (fun a b => b.depth < a.depth)
+
+theorem popParents_split (d : Int) : ∀ (st : List Parent), StackSorted st →
+    ∃ A, st = A ++ popParents d st ∧ (∀ a, a ∈ A → ¬ a.depth < d) ∧ (∀ b, b ∈ popParents d st → b.depth < d) := by
+  intro st
+  induction st with
+  | nil => intro _; exact ⟨[], rfl, by simp, by simp [popParents]⟩
+  | cons q st ih =>
+    intro hs
+    rw [StackSorted, List.pairwise_cons] at hs
+    rw [popParents]
+    by_cases hq : q.depth < d
+    · simp only [hq, if_true]
+      refine ⟨[], rfl, by simp, ?_⟩
+      intro b hb
+      rcases List.mem_cons.1 hb with h | h
+      · subst h; exact hq
+      · exact Int.lt_trans (hs.1 b h) hq
+    · simp only [hq, if_false]
+      obtain ⟨A, hA, h1, h2⟩ := ih hs.2
+      refine ⟨q :: A, by rw [List.cons_append, ← hA], ?_, h2⟩
+      intro a ha
+      rcases List.mem_cons.1 ha with h | h
+      · subst h; exact hq
+      · exact h1 a h
+
+theorem popParents_sorted (d : Int) (st : List Parent) (hs : StackSorted st) : StackSorted (popParents d st) := by
+  obtain ⟨A, hA, _, _⟩ := popParents_split d st hs
+  rw [StackSorted, hA, List.pairwise_append] at hs
+  exact hs.2.1
+
+theorem dropWhile_append_all {α : Type} (P : α → Bool) : ∀ (X Y : List α), (∀ x, x ∈ X → P x = true) →
+    (X ++ Y).dropWhile P = Y.dropWhile P := by
+  intro X
+  induction X with
+  | nil => intro Y _; rfl
+  | cons x X ih =>
+    intro Y h
+    simp only [List.cons_append, List.dropWhile_cons, h x List.mem_cons_self, if_true]
+    exact ih Y (fun y hy => h y (List.mem_cons_of_mem _ hy))
+
+theorem dropWhile_none {α : Type} (P : α → Bool) : ∀ (Y : List α), (∀ y, y ∈ Y → P y = false) →
+    Y.dropWhile P = Y := by
+  intro Y h
+  cases Y with
+  | nil => rfl
+  | cons y Y => simp [h y List.mem_cons_self]
+
+/-- the `ConvertUnit` stack that corresponds to a `FilterUnit` stack: its reserved elements, then the root -/
+def convStack (ids : List Off) (u : UnitHdr) (st : List Parent) : List (Int × Off) :=
+  (st.filter (fun p => ids.contains (u.base + p.off))).map (fun p => (p.depth, u.base + p.off)) ++ [(0, u.rootOff)]
+
+theorem convStack_pop (ids : List Off) (u : UnitHdr) (st : List Parent) (hs : StackSorted st) (d : Int) (hd : 0 < d) :
+    (convStack ids u st).dropWhile (fun p => !(decide (p.1 < d))) = convStack ids u (popParents d st) := by
+  obtain ⟨A, hA, h1, h2⟩ := popParents_split d st hs
+  have e1 : convStack ids u st =
+      (A.filter (fun p => ids.contains (u.base + p.off))).map (fun p => (p.depth, u.base + p.off)) ++
+        convStack ids u (popParents d st) := by
+    conv => lhs; rw [convStack, hA]
+    simp only [List.filter_append, List.map_append, List.append_assoc, convStack]
+  rw [e1, dropWhile_append_all]
+  · apply dropWhile_none
+    intro y hy
+    simp only [convStack, List.mem_append, List.mem_map, List.mem_filter, List.mem_singleton] at hy
+    rcases hy with ⟨p, ⟨hp, _⟩, hy⟩ | hy
+    · subst hy; simp [h2 p hp]
+    · subst hy; simp [hd]
+  · intro x hx
+    simp only [List.mem_map, List.mem_filter] at hx
+    obtain ⟨p, ⟨hp, _⟩, hx⟩ := hx
+    subst hx
+    simp [h1 p hp]
+
+/-- what the parent-link theorem says the output is: the reserved entries with the parent the
+`FilterUnit` stack found (the root if none) -/
+def filterLinks (ids : List Off) (u : UnitHdr) (st : List Parent) (es : List Entry) : List (Off × Option Off) :=
+  ((withParents st es).filter (fun ep => ids.contains (u.base + ep.1.off))).map
+    (fun ep => (u.base + ep.1.off, some (match ep.2 with | some p => u.base + p.off | none => u.rootOff)))
+
+theorem convertLinks_eq (ids : List Off) (u : UnitHdr) : ∀ (es : List Entry) (st : List Parent),
+    StackSorted st →
+    (∀ e, e ∈ es → 0 < e.depth) →
+    (∀ ep, ep ∈ withParents st es → ids.contains (u.base + ep.1.off) = true →
+        ∀ p, ep.2 = some p → ids.contains (u.base + p.off) = true) →
+    convertLinks ids u (convStack ids u st) es = filterLinks ids u st es := by
+  intro es
+  induction es with
+  | nil => intro st _ _ _; rfl
+  | cons e es ih =>
+    intro st hs hd hc
+    have hde := hd e List.mem_cons_self
+    rw [convertLinks, filterLinks, withParents]
+    rw [convStack_pop ids u st hs e.depth hde]
+    have hs1 : StackSorted (popParents e.depth st) := popParents_sorted _ _ hs
+    obtain ⟨_, _, _, hlt⟩ := popParents_split e.depth st hs
+    -- the stack after the push, on both sides
+    have hpush : (if (ids.contains (u.base + e.off) && e.hasChildren) = true
+          then (e.depth, u.base + e.off) :: convStack ids u (popParents e.depth st)
+          else convStack ids u (popParents e.depth st)) =
+        convStack ids u (pushParent e (popParents e.depth st)) := by
+      simp only [pushParent]
+      by_cases hch : e.hasChildren = true
+      · by_cases hr : ids.contains (u.base + e.off) = true
+        · have hm : u.base + e.off ∈ ids := by simpa using hr
+          simp [hch, hm, convStack]
+        · have hm : ¬ (u.base + e.off ∈ ids) := by simpa using hr
+          simp [hch, hm, convStack]
+      · have hch' : e.hasChildren = false := by simpa using hch
+        simp [hch']
+    have hs2 : StackSorted (pushParent e (popParents e.depth st)) := by
+      simp only [pushParent]
+      by_cases hch : e.hasChildren = true
+      · simp only [hch, if_true, StackSorted, List.pairwise_cons]
+        exact ⟨fun b hb => hlt b hb, hs1⟩
+      · simp only [hch]; exact hs1
+    have hrec := ih (pushParent e (popParents e.depth st)) hs2
+      (fun e' he' => hd e' (List.mem_cons_of_mem _ he'))
+      (fun ep hep => hc ep (by rw [withParents]; exact List.mem_cons_of_mem _ hep))
+    rw [hpush, hrec]
+    by_cases hr : ids.contains (u.base + e.off) = true
+    · simp only [hr, if_true, List.filter_cons, filterLinks, List.map_cons, List.cons.injEq, Prod.mk.injEq, true_and, and_true]
+      -- the parent
+      cases hp : (popParents e.depth st).head? with
+      | none =>
+        have : popParents e.depth st = [] := by
+          cases h : popParents e.depth st with
+          | nil => rfl
+          | cons a l => rw [h] at hp; simp at hp
+        simp [this, convStack]
+      | some p =>
+        have hpr : ids.contains (u.base + p.off) = true :=
+          hc (e, some p) (by rw [withParents, hp]; exact List.mem_cons_self) hr p rfl
+        cases h : popParents e.depth st with
+        | nil => rw [h] at hp; simp at hp
+        | cons a l =>
+          rw [h] at hp
+          simp only [List.head?_cons, Option.some.injEq] at hp
+          subst hp
+          have hm : u.base + a.off ∈ ids := by simpa using hpr
+          simp [convStack, hm]
+    · have hm : ¬ (u.base + e.off ∈ ids) := by simpa using hr
+      simp [hm, filterLinks]
+
+
 end Gimli.Filter
